@@ -26,7 +26,7 @@ def register(reg):
     ))
 
     reg.add(Contract(
-        target=f'{BB}.from_float', props=['C01', 'C03'], kind='classmethod',
+        target=f'{BB}.from_float', props=['C01', 'C03', 'C02', 'C16'], kind='classmethod',
         params={'xmin': 'real', 'xmax': 'real', 'ymin': 'real', 'ymax': 'real'},
         requires=['xmin <= xmax', 'ymin <= ymax'],
         ensures=[
@@ -195,7 +195,7 @@ def register_extents(reg):
     inell = (f'sq((p * {c} + q * {s}) / semimajor_axis) + '
              f'sq((-p * {s} + q * {c}) / semiminor_axis) <= 1')
     reg.add(Contract(
-        target=E, props=['C01'], kind='staticmethod',
+        target=E, props=['C01', 'C02', 'C16'], kind='staticmethod',
         params={'semimajor_axis': 'posreal', 'semiminor_axis': 'posreal', 'theta': 'Quantity'},
         consts=consts,
         replay={'call': 'photutils.aperture.ellipse:EllipticalMaskMixin._calc_extents', 'approx': True,
@@ -216,7 +216,7 @@ def register_extents(reg):
     # geometric lemmas about the closed form (pure real arithmetic; no code involved): every
     # point (p, q) of the ellipse has |p| <= X and |q| <= Y, and both bounds are attained
     reg.add(Contract(
-        target=E, props=['C01'], kind='staticmethod', tag='contains-ellipse',
+        target=E, props=['C01', 'C02', 'C16'], kind='staticmethod', tag='contains-ellipse',
         params={'semimajor_axis': 'posreal', 'semiminor_axis': 'posreal', 'theta': 'Quantity'},
         consts=consts, custom=_ellipse_extent_lemmas,
         mutants=[('semimajor_x = semimajor_axis * cos_theta', 'semimajor_x = semiminor_axis * cos_theta'),
@@ -228,7 +228,7 @@ def register_extents(reg):
     corner = lambda sx, sy: (f'({sx} * width / 2 * {c} - {sy} * height / 2 * {s})',  # noqa: E731
                              f'({sx} * width / 2 * {s} + {sy} * height / 2 * {c})')
     reg.add(Contract(
-        target=R, props=['C01'], kind='staticmethod',
+        target=R, props=['C01', 'C02', 'C16'], kind='staticmethod',
         params={'width': 'posreal', 'height': 'posreal', 'theta': 'Quantity'},
         consts=consts,
         replay={'call': 'photutils.aperture.rectangle:RectangularMaskMixin._calc_extents', 'approx': True,
@@ -320,7 +320,7 @@ def register_bbox(reg):
     reg.record('PixelAperture', {'_positions': ('arr', 2, 'real'),
                                  '_xy_extents': ('tuple', 'real', 'real')})
     reg.add(Contract(
-        target=f'{P}._bbox', props=['C01'], kind='property',
+        target=f'{P}._bbox', props=['C01', 'C02', 'C16'], kind='property',
         params={'self': 'PixelAperture'},
         requires=['self._positions.shape[1] == 2', 'self._xy_extents[0] >= 0',
                   'self._xy_extents[1] >= 0'],
@@ -356,7 +356,7 @@ def register_xy_extents(reg):
         reg.record(cls, {**{f: 'posreal' for f in fields}, 'theta': 'Quantity'},
                    bases=['EllipticalMaskMixin'])
         reg.add(Contract(
-            target=f'photutils/aperture/ellipse.py::{cls}._xy_extents', props=['C01'],
+            target=f'photutils/aperture/ellipse.py::{cls}._xy_extents', props=['C01', 'C02', 'C16'],
             kind='property', params={'self': cls}, consts=consts,
             requires=['self.a_in < self.a_out', 'self.b_in < self.b_out'] if 'a_in' in fields else [],
             ensures=[('outer-ellipse-extents',
@@ -375,7 +375,7 @@ def register_xy_extents(reg):
             f'abs({sx} * self.{W} / 2 * {c} - {sy} * self.{H} / 2 * {s})',
             f'abs({sx} * self.{W} / 2 * {s} + {sy} * self.{H} / 2 * {c})')
         reg.add(Contract(
-            target=f'photutils/aperture/rectangle.py::{cls}._xy_extents', props=['C01'],
+            target=f'photutils/aperture/rectangle.py::{cls}._xy_extents', props=['C01', 'C02', 'C16'],
             kind='property', params={'self': cls}, consts=consts,
             requires=['self.w_in < self.w_out', 'self.h_in < self.h_out'] if 'w_in' in fields else [],
             ensures=[('outer-rectangle-extents',
@@ -393,7 +393,7 @@ def register_xy_extents(reg):
             else {'r_in': 'posreal', 'r_out': 'posreal'}
         reg.record(cls, fields)
         reg.add(Contract(
-            target=f'photutils/aperture/circle.py::{cls}._xy_extents', props=['C01'],
+            target=f'photutils/aperture/circle.py::{cls}._xy_extents', props=['C01', 'C02', 'C16'],
             kind='property', params={'self': cls},
             requires=['self.r_in < self.r_out'] if R != 'r' else [],
             ensures=[('outer-radius', f'result == (self.{R}, self.{R})'),
@@ -412,7 +412,7 @@ def register_mask_mode(reg):
     T = 'photutils/aperture/core.py::PixelAperture._translate_mask_mode'
     for rect in (False, True):
         reg.add(Contract(
-            target=T, props=['C01'], kind='staticmethod', tag=f'rectangle={rect}',
+            target=T, props=['C01', 'C02', 'C16'], kind='staticmethod', tag=f'rectangle={rect}',
             params={'mode': 'str', 'subpixels': 'int', 'rectangle': ('const', rect)},
             cases={'mode': ['center', 'subpixel', 'exact']},
             replay={'call': 'photutils.aperture.core:PixelAperture._translate_mask_mode',
@@ -436,7 +436,7 @@ def register_edges(reg):
     reg.record('PixelApertureEdges', {'_positions': ('arr', 2, 'real'),
                                       '_bbox': ('seq', 'BoundingBox')})
     reg.add(Contract(
-        target=f'{P}._centered_edges', props=['C01'], kind='property',
+        target=f'{P}._centered_edges', props=['C01', 'C02', 'C16'], kind='property',
         params={'self': 'PixelApertureEdges'},
         requires=['self._positions.shape[1] == 2', 'len(self._bbox) == self._positions.shape[0]'],
         ensures=[
